@@ -8,7 +8,7 @@
 //!   halo2curves little-endian flag format of the BN254 development curve).
 
 use num_bigint::BigUint;
-use num_traits::{One, Zero};
+use num_traits::Zero;
 use serde_json::{json, Value};
 use vcore::big::{self, Fp};
 
@@ -36,11 +36,6 @@ impl Fld {
     pub fn from_u(&self, x: u64) -> FE {
         let mut v = self.zero();
         v[0] = big::bu(x) % self.p();
-        v
-    }
-    pub fn from_base(&self, x: &BigUint) -> FE {
-        let mut v = self.zero();
-        v[0] = x % self.p();
         v
     }
     pub fn is_zero(&self, a: &FE) -> bool {
@@ -523,7 +518,7 @@ impl Fmt {
         }
     }
 
-    fn fe_be(cv: &MCurve, x: &FE) -> Vec<u8> {
+    fn fe_be(_cv: &MCurve, x: &FE) -> Vec<u8> {
         // big-endian, most significant component first
         let mut v = vec![];
         for c in x.iter().rev() {
